@@ -216,7 +216,36 @@ def execute(cases, exe, model, variant):
     for lines, crash in impl:
         mcases.append("\n".join(lines) + "\n")
     mod = C.run_cases(model, mcases, timeout=900, env={"C04_VARIANT": variant})
+    if any(crash for _, crash in impl):
+        sweep_residue()
     return impl, mod
+
+
+def sweep_residue():
+    """A harness killed by a sanitizer report cannot tidy up: remove /dev/shm entries of lab services (names
+    vl<pid>_<n>) whose process is gone, so that a later process with a recycled pid does not inherit them."""
+    import shutil
+    try:
+        names = os.listdir("/dev/shm")
+    except OSError:
+        return
+    for d in names:
+        if not d.startswith("qb-"):
+            continue
+        p = os.path.join("/dev/shm", d)
+        try:
+            inner = os.listdir(p) if os.path.isdir(p) else [d]
+            pids = set(int(m.group(1)) for f in inner for m in [re.search(r"-vl(\d+)_\d+", f)] if m)
+            if not pids or len([f for f in inner if re.search(r"-vl\d+_\d+", f)]) != len(inner):
+                continue
+            if any(os.path.exists("/proc/%d" % q) for q in pids):
+                continue
+            if os.path.isdir(p):
+                shutil.rmtree(p, ignore_errors=True)
+            else:
+                os.unlink(p)
+        except OSError:
+            pass
 
 
 def comparable(lines):
